@@ -254,7 +254,10 @@ class Monitor(object):
                 self.stats["challenge_responses"] += 1
             else:
                 shape = proto.password_shape(text)
-                if shape:
+                if getattr(self.cfg, "modules", None) == ("iauth",):
+                    # the core alone does not read passwords: no service module is loaded that would
+                    self.stats["passwords_without_service_module"] = self.stats.get("passwords_without_service_module", 0) + 1
+                elif shape:
                     i.modes = proto.apply_modes(i.modes, shape[0])
                     i.pw = shape[1][:511]
                     ctx["wellformed_pw_for"] = i
